@@ -9,8 +9,8 @@ here-and-there pair.  The semantics is parametric in
 * `arith`  : evaluation of unary/binary arithmetic on ground terms (`none` = undefined: the instance is dropped),
 * `aggRel` : when an aggregate literal holds, as a function of its sign, guards, function and of the *sets of tuples*
              contributed at `H` and at `T` (Ferraris / Abstract-Gringo reading: both worlds are consulted),
-* `G`      : the global variables of the statement (a local variable of an element / conditional literal is
-             quantified inside it).
+* `G`      : the set of global variables of the statement, as a predicate on names (a local variable of an element /
+             conditional literal is quantified inside it).
 Theorems about rewrites of *conditions* and *comparison literals* are proved for all four parameters.
 -/
 namespace NgoVerif.Sem
@@ -71,13 +71,13 @@ def guardVal (e : Env) : Option Guard → Option (CmpOp × Option Sym)
   | some g => some (g.op, evalTerm P e g.term)
 
 /-- `e'` may differ from `e` only on local (non-global) variables -/
-def Agree (G : List String) (e e' : Env) : Prop := ∀ v ∈ G, e' v = e v
+def Agree (G : String → Prop) (e e' : Env) : Prop := ∀ v, G v → e' v = e v
 
 mutual
 /-- satisfaction of a literal `(sign, atom)` at the here-and-there pair `(H, T)` -/
-def litSat (G : List String) (e : Env) (H T : Interp) : Sign × Atom → Prop
+def litSat (G : String → Prop) (e : Env) (H T : Interp) : Sign × Atom → Prop
   | (s, a) => atomSat G e H T s a
-def atomSat (G : List String) (e : Env) (H T : Interp) (s : Sign) : Atom → Prop
+def atomSat (G : String → Prop) (e : Env) (H T : Interp) (s : Sign) : Atom → Prop
   | .sym t =>
     match s with
     | .pos => ∃ a, groundAtom P e t = some a ∧ H a
@@ -98,30 +98,58 @@ def atomSat (G : List String) (e : Env) (H T : Interp) (s : Sign) : Atom → Pro
   | .agg lg elems rg =>
     P.oldAggRel s (guardVal P e lg) (guardVal P e rg) (cCount G e H H elems) (cCount G e T T elems)
   | .theory _ => False
-def litsSat (G : List String) (e : Env) (H T : Interp) : List (Sign × Atom) → Prop
+def litsSat (G : String → Prop) (e : Env) (H T : Interp) : List (Sign × Atom) → Prop
   | [] => True
   | l :: ls => litSat G e H T l ∧ litsSat G e H T ls
 /-- the tuples an aggregate's elements contribute at a world -/
-def bTuples (G : List String) (e : Env) (H T : Interp) : List (List Term × List (Sign × Atom)) → List Sym → Prop
+def bTuples (G : String → Prop) (e : Env) (H T : Interp) : List (List Term × List (Sign × Atom)) → List Sym → Prop
   | [], _ => False
   | (ts, c) :: es, tup =>
     (∃ e', Agree G e e' ∧ evalTerms P e' ts = some tup ∧ litsSat G e' H T c) ∨ bTuples G e H T es tup
 /-- old-style aggregates count satisfied elements; `k` indexes the element -/
-def cCount (G : List String) (e : Env) (H T : Interp) : List ((Sign × Atom) × List (Sign × Atom)) → Nat → Prop
+def cCount (G : String → Prop) (e : Env) (H T : Interp) : List ((Sign × Atom) × List (Sign × Atom)) → Nat → Prop
   | [], _ => False
   | (l, c) :: es, k =>
     (k = es.length ∧ ∃ e', Agree G e e' ∧ litSat G e' H T l ∧ litsSat G e' H T c) ∨ cCount G e H T es k
 end
 
 /-- a conditional literal `l : c̄` in a body: for every binding of its local variables, at both worlds -/
-def condLitSat (G : List String) (e : Env) (H T : Interp) (c : CondLit) : Prop :=
+def condLitSat (G : String → Prop) (e : Env) (H T : Interp) (c : CondLit) : Prop :=
   ∀ e', Agree G e e' →
     (litsSat P G e' H T c.2 → litSat P G e' H T c.1) ∧ (litsSat P G e' T T c.2 → litSat P G e' T T c.1)
 
-def blitSat (G : List String) (e : Env) (H T : Interp) : BLit → Prop
+def blitSat (G : String → Prop) (e : Env) (H T : Interp) : BLit → Prop
   | .lit l => litSat P G e H T l
   | .clit c => condLitSat P G e H T c
 
-def bodySat (G : List String) (e : Env) (H T : Interp) (b : List BLit) : Prop := ∀ l ∈ b, blitSat P G e H T l
+def bodySat (G : String → Prop) (e : Env) (H T : Interp) (b : List BLit) : Prop := ∀ l ∈ b, blitSat P G e H T l
+
+/- realise the equation lemmas of the non-recursive definitions here, in their defining module, so that two proof
+files that unfold them can be imported together -/
+theorem condLitSat_iff (G : String → Prop) (e : Env) (H T : Interp) (c : CondLit) :
+    condLitSat P G e H T c ↔ ∀ e', Agree G e e' →
+      (litsSat P G e' H T c.2 → litSat P G e' H T c.1) ∧ (litsSat P G e' T T c.2 → litSat P G e' T T c.1) := by
+  simp only [condLitSat]
+
+theorem bodySat_iff (G : String → Prop) (e : Env) (H T : Interp) (b : List BLit) :
+    bodySat P G e H T b ↔ ∀ l ∈ b, blitSat P G e H T l := by
+  simp only [bodySat]
+
+theorem blitSat_lit (G : String → Prop) (e : Env) (H T : Interp) (l : Sign × Atom) :
+    blitSat P G e H T (.lit l) ↔ litSat P G e H T l := by
+  simp only [blitSat]
+
+theorem blitSat_clit (G : String → Prop) (e : Env) (H T : Interp) (c : CondLit) :
+    blitSat P G e H T (.clit c) ↔ condLitSat P G e H T c := by
+  simp only [blitSat]
+
+theorem agree_iff (G : String → Prop) (e e' : Env) : Agree G e e' ↔ ∀ v, G v → e' v = e v := by
+  simp only [Agree]
+
+theorem guardVal_none (e : Env) : guardVal P e none = none := by simp only [guardVal]
+
+theorem groundAtom_fn (e : Env) (name : String) (args : List Term) :
+    groundAtom P e (.fn name args false) = (evalTerms P e args).map fun as => ⟨name, as⟩ := by
+  simp only [groundAtom]
 
 end NgoVerif.Sem
